@@ -103,9 +103,9 @@ def run(pid, tier, seed, replay=None):
                 done.update(seq)
             cover[fam] = {"transitions_in_model": len(edges), "transitions_targeted": len(want), "transitions_in_scripts": len(done),
                           "scripts": len(seqs), "operations": sum(len(s) for s in seqs)}
-        # every script of the one-variable family and a third of the others again under ASan + UBSan
+        # every script of the one-variable family and a third (thorough: a fifth) of the others again under ASan + UBSan
         for sid, fam, toks in scripts:
-            if fam == "none1" or rng.random() < (0.34 if quick else 1.0):
+            if fam == "none1" or rng.random() < (0.34 if quick else 0.2):
                 san_ids.add(sid)
 
     # ---- 3. execute on the real code
